@@ -26,6 +26,7 @@ RULE = (
     "tensor incl. 1-D, one Scope, list of Scopes of length 1 or B), empty and full masks; batch sizes "
     "{1, 2, F-1, F, F+1, 7} for every input-layer fold count F; 4 flags x {sum-product, lse-sum}; "
     "distinct = (structure, flags); non-trivial = some row integrates a strict non-empty subset"
+    " Also: re-query after an in-place update, probability tables with an impossible category (log-space), marginalised columns holding values whose density underflows to 0;"
 )
 EXHAUSTIVE_SUBSPACES = ["all 4 (fold, optimize) combinations (even cases)", "batch sizes 1, 2, F-1, F, F+1 for each input fold count F"]
 ASSUMPTIONS = ["reference interpreter + quadrature of vf/brute.py", "embedding / polynomial layers have no backend integrate(): documented TypeError counted as refusal"]
